@@ -162,8 +162,13 @@ type PGSession struct {
 
 // NewPGSession starts both proxy pumps (as cmd/acra-server/common/listener.go does) for clientID.
 func NewPGSession(env *PGEnv, clientID []byte, logger *logrus.Logger) (*PGSession, error) {
-	cliApp, cliProxy := Pipe("client", "proxy-client")
-	dbProxy, dbSrv := Pipe("proxy-db", "database")
+	h := newHub()
+	cliApp, cliProxy := pipeOn(h, "client", "proxy-client")
+	dbProxy, dbSrv := pipeOn(h, "proxy-db", "database")
+	// the proxy is quiescent when both of its pumps sleep on empty input buffers
+	quiet := func() bool { return cliProxy.in.idle() && dbProxy.in.idle() }
+	cliApp.in.quiet = quiet
+	dbSrv.in.quiet = quiet
 	s := &clientSession{c: cliProxy, d: dbProxy, data: map[string]interface{}{}}
 	if logger == nil {
 		logger = logrus.StandardLogger()
